@@ -31,6 +31,8 @@ def build(rng, case, k):
                         rate=[1024, 2048, 32768][k % 3])
     if 'wm' in present:
         ds['wmi'] = ds['wmi_eff'] if 'wmi' in present else None
+    elif 'wmi' in present:
+        ds['wmi'] = D.monomial(rng, nc)[1]       # an inverse file WITHOUT the matrix file: loaded as it is
     ds['sc'] = (ds['st'] + (np.arange(ns) % 2) * nt) if 'sc' in present else None
     ds['probes'] = (np.arange(nc) // max(1, nc // 2)) if 'probes' in present else None
     if sparse:
